@@ -30,7 +30,8 @@ let check inp obs =
       | _ -> fail "C16: bad block %s" s) blks_s) in
   let fin, orders = match rest with
     | ft :: os -> hexi (String.sub ft 1 (String.length ft - 1)),
-                  List.map (fun o -> List.map hexi (split '.' (String.sub o 1 (String.length o - 1)))) os
+                  List.map (fun o -> List.map (fun x -> if x = "z" then -1 else hexi x)
+                                       (split '.' (String.sub o 1 (String.length o - 1)))) os
     | [] -> fail "C16: no orders" in
   let otoks = split_ws obs in
   if otoks = ["panic"] || otoks = ["hang"] then
@@ -54,14 +55,18 @@ let check inp obs =
   let model_tok order =
     let t = ref (new_tree (hash 0) rootnum Z0) in
     let errs = ref 0 in
-    List.iter (fun i -> match add_block !t (header i) blks.(i).arrival with
+    let inter = List.mem (-1) order in
+    List.iter (fun i ->
+        if i < 0 then t := fst (prune !t (hash fin)) else
+        match add_block !t (header i) blks.(i).arrival with
         | Ok t' -> t := t' | _ -> incr errs) order;
     let b = str_best (best_block_hash !t) in
     (* the reversed iteration orders must give the same answer *)
     let b' = str_best (best_block_hash_ord (fun l -> List.rev l) (fun l -> List.rev l) !t) in
     let lv = ids (get_leaves_of !t) in
     let after =
-      if fin > 0 then begin
+      if inter then "-;-"
+      else if fin > 0 then begin
         let (t', _) = prune !t (hash fin) in
         str_best (best_block_hash t') ^ ";" ^ ids (get_leaves_of t')
       end else "-;-" in
@@ -70,24 +75,48 @@ let check inp obs =
   let spec_of order =
     let s = ref { s_root = hash 0; s_rootnum = rootnum; s_blocks = [] } in
     let errs = ref 0 in
-    List.iter (fun i -> match s_add !s (header i) blks.(i).arrival with
+    let fin_held = ref true in
+    List.iter (fun i ->
+        if i < 0 then begin
+          if not (s_known !s (hash fin)) then fin_held := false;
+          s := fst (s_fin !s (hash fin))
+        end else
+        match s_add !s (header i) blks.(i).arrival with
         | Ok s' -> s := s' | _ -> incr errs) order;
-    (!s, !errs) in
+    (!s, !errs, !fin_held) in
   let opt_id = function Some h -> id_of h | None -> "none" in
   let first = (match orders with o :: _ -> o | [] -> fail "C16: no orders") in
-  let (s0, e0) = spec_of first in
+  let (s0, e0, _) = spec_of first in
   let want_best = opt_id (s_best_hash s0) in
   let want_leaves = ids (s_leaves s0) in
   let want_after, want_leaves_after =
     if fin > 0 then (let (s1, _) = s_fin s0 (hash fin) in (opt_id (s_best_hash s1), ids (s_leaves s1)))
     else ("-", "-") in
   let bad = ref [] in
+  let itags = ref [] in
+  let itag x = if not (List.mem x !itags) then itags := x :: !itags in
   let note k w = bad := Printf.sprintf "order#%d:%s" k w :: !bad in
   if e0 <> 0 then note 0 "spec-rejects-a-block";
   if List.length otoks <> List.length orders then note 0 "token-count"
   else List.iteri (fun k tok ->
       if String.length tok < 2 || String.sub tok 0 2 <> "B:" then note k ("shape " ^ tok) else
       match split ';' (String.sub tok 2 (String.length tok - 2)) with
+      | [errs; best3; lv; ba; la] when List.mem (-1) (List.nth orders k) ->
+        (* an interleaving with the finalisation in between: its own specification run *)
+        let (si, ei, held) = spec_of (List.nth orders k) in
+        let wb = opt_id (s_best_hash si) in
+        if errs <> xs ei then note k (Printf.sprintf "AddBlock errors=%s spec=%x" errs ei);
+        List.iter (fun b -> if b <> wb then
+                      note k (Printf.sprintf "interleaved finalisation: BestBlockHash=%s, argmax of the leaves=%s" b wb))
+          (split '/' best3);
+        if lv <> ids (s_leaves si) then note k (Printf.sprintf "interleaved finalisation: Leaves=%s spec=%s" lv (ids (s_leaves si)));
+        if ba <> "-" || la <> "-" then note k "shape";
+        itag (if not held then "interleaved-fin-before-its-block" else if ei = 0 then "interleaved-fin-all-accepted"
+              else "interleaved-fin-some-refused");
+        (* C16_interleavings_with_finalisations: all additions accepted and the target held when
+           finalised: the same best block as with the finalisation at the end *)
+        if held && ei = 0 && e0 = 0 && wb <> want_after then
+          note k (Printf.sprintf "interleavings disagree: %s with the finalisation in between, %s with it at the end" wb want_after)
       | [errs; best3; lv; ba; la] ->
         if errs <> "0" then note k ("AddBlock errors=" ^ errs);
         List.iter (fun b -> if b <> want_best then
@@ -127,6 +156,7 @@ let check inp obs =
    | None -> tag "root-only");
   tag (Printf.sprintf "orders-%s" (let c = List.length orders in if c = 1 then "1" else if c < 6 then "2-5" else "6+"));
   if fin > 0 then tag "with-finalisation";
+  List.iter tag !itags;
   tag (if via_state then "via-BlockState" else "via-BlockTree");
   let prop_ok = (!bad = []) in
   let first_diff =
